@@ -22,6 +22,9 @@ import (
 
 type sessionView = hk.SessionView
 
+// diskKind: the case under execution uses an IOnDiskStateMachine (set per case)
+var diskKind bool
+
 var defaultCap = hk.LRUMaxSessionCount() // value of rsm.LRUMaxSessionCount before the harness touches it
 
 func quiet() {
@@ -114,6 +117,19 @@ func (c *concAccSM) RecoverFromSnapshot(r io.Reader, f []sm.SnapshotFile, d <-ch
 	return c.core.RecoverFromSnapshot(r, f, d)
 }
 func (c *concAccSM) Close() error { return nil }
+
+// diskAccSM: the same machine as an IOnDiskStateMachine (always opened empty:
+// index 0). Only the apply path is driven for this kind.
+type diskAccSM struct{ concAccSM }
+
+func (d *diskAccSM) Open(<-chan struct{}) (uint64, error) { return 0, nil }
+func (d *diskAccSM) Sync() error                          { return nil }
+func (d *diskAccSM) SaveSnapshot(ctx interface{}, w io.Writer, _ <-chan struct{}) error {
+	return d.concAccSM.SaveSnapshot(ctx, w, nil, nil)
+}
+func (d *diskAccSM) RecoverFromSnapshot(r io.Reader, _ <-chan struct{}) error {
+	return d.core.RecoverFromSnapshot(r, nil, nil)
+}
 
 // ---- rsm.INode: records what handleEntry reports ----
 
@@ -220,6 +236,14 @@ func mkStateMachine(conc, nonVoting bool, cap uint64, fs hk.IFS, snap *snapshott
 	usm := &accSM{}
 	node := &nodeProxy{applied: map[uint64][]applyRec{}, stop: make(chan struct{})}
 	var msm hk.IManagedStateMachine
+	if diskKind {
+		msm = hk.NewOnDiskSM(cfg, &diskAccSM{concAccSM{core: usm}}, make(chan struct{}))
+		s := hk.NewStateMachine(msm, snap, cfg, node, fs)
+		if _, err := s.OpenOnDiskStateMachine(); err != nil {
+			panic(err)
+		}
+		return s, usm, node
+	}
 	if conc {
 		msm = hk.NewConcurrentSM(cfg, &concAccSM{core: usm}, make(chan struct{}))
 	} else {
@@ -277,9 +301,67 @@ func (e entryResult) String() string {
 	return s
 }
 
+// mkEntry: the log entry for an op; EN / ES carry the payload the way
+// pendingProposal.propose encodes every non-empty command.
+func mkEntry(idx uint64, o op) pb.Entry {
+	e := pb.Entry{Index: idx, Term: 1, Type: pb.ApplicationEntry, Key: idx, ClientID: o.client, SeriesID: o.series, RespondedTo: o.responded, Cmd: o.cmd}
+	if o.enc != 0 && len(o.cmd) > 0 {
+		ct := config.NoCompression
+		if o.enc == 'S' {
+			ct = config.Snappy
+		}
+		e.Type = pb.EncodedEntry
+		e.Cmd = hk.GetEncoded(ct, o.cmd)
+	}
+	return e
+}
+
+// applyBatch feeds several entries as ONE task and collects, per entry, what
+// apply collects for a single one.
+func (r *replica) applyBatch(os []op) (out []entryResult, perr string) {
+	ents := make([]pb.Entry, len(os))
+	for i, o := range os {
+		ents[i] = mkEntry(r.index+1+uint64(i), o)
+	}
+	calls0 := len(r.usm.calls)
+	perr = vh.Catch(func() { r.feed(ents) })
+	if perr != "" {
+		return nil, perr
+	}
+	r.index += uint64(len(os))
+	out = make([]entryResult, len(os))
+	for i, o := range os {
+		idx := ents[i].Index
+		res := &out[i]
+		for _, c := range r.usm.calls[calls0:] {
+			if c.Index == idx {
+				res.updateCalls++
+				if !bytes.Equal(c.Cmd, o.cmd) {
+					res.panicked, res.panicMsg = true, fmt.Sprintf("user Update got cmd %x for entry %d whose payload is %x", c.Cmd, idx, o.cmd)
+				}
+			}
+		}
+		recs := r.node.applied[idx]
+		delete(r.node.applied, idx)
+		res.nApply = len(recs)
+		if len(recs) > 0 {
+			res.applyCalled = true
+			res.value, res.data, res.rejected, res.ignored = recs[0].result.Value, recs[0].result.Data, recs[0].rejected, recs[0].ignored
+		} else {
+			res.nApply = 1
+		}
+	}
+	for _, c := range r.usm.calls[calls0:] {
+		if c.Index < ents[0].Index || c.Index > ents[len(ents)-1].Index {
+			return nil, fmt.Sprintf("user Update called for index %d outside the batch", c.Index)
+		}
+	}
+	return out, ""
+}
+
 func (r *replica) apply(o op) entryResult {
 	idx := r.index + 1
-	e := pb.Entry{Index: idx, Term: 1, Type: pb.ApplicationEntry, Key: idx, ClientID: o.client, SeriesID: o.series, RespondedTo: o.responded, Cmd: o.cmd}
+	e := mkEntry(idx, o)
 	calls0 := len(r.usm.calls)
 	var res entryResult
 	if p := vh.Catch(func() { r.feed([]pb.Entry{e}) }); p != "" {
